@@ -1046,7 +1046,11 @@ func c02TechnologyCheckNotSkipped(c *Ctx) {
 				if bo, ok := cf.Cond.(*ssa.BinOp); ok && (bo.Op == token.EQL || bo.Op == token.NEQ) && isNilK(bo.Y) && len(args) == 2 && samePointerValue(bo.X, args[1]) {
 					continue
 				}
-				// (b) the side that does not lead to the call refuses
+				// (b) an earlier step's error: the side without the call is that step's failure
+				if bo, ok := cf.Cond.(*ssa.BinOp); ok && (bo.Op == token.EQL || bo.Op == token.NEQ) && isNilK(bo.Y) && isErrorType(bo.X.Type()) {
+					continue
+				}
+				// (c) the side that does not lead to the call refuses
 				if cf.Block != nil && len(cf.Block.Succs) == 2 {
 					other := cf.Block.Succs[0]
 					if cf.Val {
